@@ -382,7 +382,21 @@ def reset_coverage(prog, res):
         res.check(any(reset.covers(q, p) for q in restored), "T13.param-reset", "ZSTD_DCtx_resetParameters:" + ".".join(p), rp.loc,
                   "decoder parameter restored to its default by the parameter reset",
                   "field %s set by ZSTD_DCtx_setParameter is not restored by ZSTD_DCtx_resetParameters" % ".".join(p))
-    res.need("T13.param-reset", 8)
+    # "a parameter reset drops dictionaries" on the decoder: every field of the context that can hold a DDict reference
+    # (derived from the record: its type names ZSTD_DDict) is cleared by ZSTD_DCtx_reset or by the helpers it calls
+    rs = prog.fn("ZSTD_DCtx_reset")
+    cleared = {p[0] for p in reset.written_paths(rs, "ZSTD_DCtx_s")}
+    for cal in sorted(rs.callees()):
+        if prog.has_fn(cal) and prog.fn(cal).file.endswith("zstd_decompress.c"):
+            cleared |= {p[0] for p in reset.written_paths(prog.fn(cal), "ZSTD_DCtx_s")}
+    holders = [fl["n"] for fl in prog.record("ZSTD_DCtx_s")["fields"] if "ZSTD_DDict" in (fl.get("t") or "")]
+    res.check(len(holders) >= 3, "T13.param-reset", "ZSTD_DCtx_reset:dictionary-holders", rs.loc, "DDict-holding fields: %s" % holders,
+              "DDict-holding fields of ZSTD_DCtx_s: %s" % holders)
+    for h in holders:
+        res.check(h in cleared, "T13.param-reset", "ZSTD_DCtx_reset:drops:" + h, rs.loc, "cleared by the parameter reset",
+                  "ZSTD_DCtx_reset(parameters) does not clear dctx->%s: dictionaries referenced before the reset stay in use after it "
+                  "(and are read after the caller freed them)" % h)
+    res.need("T13.param-reset", 12)
 
 
 def simple_api(prog, res):
